@@ -357,8 +357,10 @@ def write_ini(path, sections):
         f.write("\n".join(lines))
 
 
-def materialise_team(team, sb, dist_name=None):
-    key = (sb, dist_name) if dist_name else sb
+def materialise_team(team, sb, dist_name=None, key=None):
+    """writes the team below sb/team; key = what the @SB@ / @DIST@ placeholders stand for (default: sb itself)"""
+    if key is None:
+        key = (sb, dist_name) if dist_name else sb
     cars_dir = os.path.join(sb, "team", "cars", "v1")
     os.makedirs(cars_dir)
     os.makedirs(os.path.join(sb, "hookout"))
@@ -532,6 +534,48 @@ def same_err(model_err, impl_err):
     return isinstance(model_err, str) and isinstance(impl_err, str) and impl_err.endswith(":*") and model_err.split(":")[0] == impl_err.split(":")[0]
 
 
+def check_car_oracle(ctx, team, names, params, sbx, car, impl_car, prefix=""):
+    """the property's statement on the Car that team.load_car returned; the expectation comes from the generated team (the files
+    that are on disk at this moment), never from the code under test"""
+    # oracle: precedence of the car's variable map, config paths ordered and unique
+    layers, mentioned = oracle_layers(team, names, params, sbx)
+    all_keys = set(k for layer in layers for k in layer)
+    for k in sorted(all_keys | set(car.variables)):
+        ok, v = ranked(layers, k)
+        if (k in car.variables) != ok or (ok and car.variables[k] != v):
+            which = next(i for i, layer in enumerate(layers) if k in layer) if ok else -1
+            cls = "precedence-car-param" if which == 0 else "precedence-car-order" if 0 < which <= len(names) else "precedence-config-base"
+            ctx.fail(prefix + cls, f"Car.variables[{k!r}] is not the value of the highest-ranked definer", v if ok else "<undefined>", car.variables.get(k, "<undefined>"))
+    exp_paths = list(dict.fromkeys(mentioned))
+    if impl_car["config_paths"] != exp_paths:
+        cls = "config-paths-duplicate" if len(set(impl_car["config_paths"])) != len(impl_car["config_paths"]) else "config-paths-order"
+        ctx.fail(prefix + cls, "config paths are not the mentioned config bases, once each, in order of first mention", exp_paths, impl_car["config_paths"])
+    bases = dict((n, b) for n, b in team["bases"])
+    exp_roots = [b for b in exp_paths if b in bases and bases[b]["hook"]]
+    if impl_car["root_paths"] != exp_roots:
+        ctx.fail(prefix + "root-paths", "root paths are not the hook-carrying config bases in order", exp_roots, impl_car["root_paths"])
+    return layers, exp_paths, exp_roots, bases
+
+
+def expected_tree(bases, exp_paths, dist, full_layers):
+    """what the installation must contain: the archive without its config directory + every template of every config base"""
+    exp_files = dict((tuple(p), bytes(b)) for p, b in dist["files"] if p[0] != "config")
+    exp_dirs = set(tuple(d) for d in dist["dirs"] if d[0] != "config")
+    provided = {}
+    for b in exp_paths:
+        for wd in (bases[b]["walk"] if b in bases else []):
+            for i in range(1, len(wd["rel"]) + 1):
+                exp_dirs.add(tuple(wd["rel"][:i]))
+            for fl in wd["files"]:
+                provided.setdefault(tuple(wd["rel"]) + (fl["name"],), []).append(fl)
+    for p, fls in provided.items():
+        if oracle_is_plain(p[-1]):
+            exp_files[p] = exp_files.get(p, b"") + b"".join(oracle_render(fl["tmpl"], full_layers) for fl in fls)
+        else:
+            exp_files[p] = file_bytes(fls[-1])
+    return exp_files, exp_dirs, provided
+
+
 def canon_fs(files, dirs):
     return {"files": sorted([list(p), list(b)] for p, b in files.items()), "dirs": sorted(list(d) for d in dirs)}
 
@@ -584,23 +628,7 @@ def run_main(ctx, case):
         if impl_car != mc:
             ctx.diff("load_car result", mc, impl_car)
 
-        # oracle: precedence of the car's variable map, config paths ordered and unique
-        layers, mentioned = oracle_layers(case["team"], case["names"], params, sbx)
-        all_keys = set(k for layer in layers for k in layer)
-        for k in sorted(all_keys | set(car.variables)):
-            ok, v = ranked(layers, k)
-            if (k in car.variables) != ok or (ok and car.variables[k] != v):
-                which = next(i for i, layer in enumerate(layers) if k in layer) if ok else -1
-                cls = "precedence-car-param" if which == 0 else "precedence-car-order" if 0 < which <= len(case["names"]) else "precedence-config-base"
-                ctx.fail(cls, f"Car.variables[{k!r}] is not the value of the highest-ranked definer", v if ok else "<undefined>", car.variables.get(k, "<undefined>"))
-        exp_paths = list(dict.fromkeys(mentioned))
-        if impl_car["config_paths"] != exp_paths:
-            cls = "config-paths-duplicate" if len(set(impl_car["config_paths"])) != len(impl_car["config_paths"]) else "config-paths-order"
-            ctx.fail(cls, "config paths are not the mentioned config bases, once each, in order of first mention", exp_paths, impl_car["config_paths"])
-        bases = dict((n, b) for n, b in case["team"]["bases"])
-        exp_roots = [b for b in exp_paths if b in bases and bases[b]["hook"]]
-        if impl_car["root_paths"] != exp_roots:
-            ctx.fail("root-paths", "root paths are not the hook-carrying config bases in order", exp_roots, impl_car["root_paths"])
+        layers, exp_paths, exp_roots, bases = check_car_oracle(ctx, case["team"], case["names"], params, sbx, car, impl_car)
 
         # ---- BareProvisioner.prepare --------------------------------------------------------
         es_home = os.path.join(node_root, "install", node["dist_name"])
@@ -648,20 +676,10 @@ def run_main(ctx, case):
             data_paths = [dpv] if isinstance(dpv, str) else dpv if ok_dp else [es_home + "/data"]
             internal = oracle_internal(node, node_root, es_home, data_paths)
             full_layers = [{"cluster_settings": {}}, internal] + layers
-            exp_files = dict((tuple(p), bytes(b)) for p, b in case["dist"]["files"] if p[0] != "config")
-            exp_dirs = set(tuple(d) for d in case["dist"]["dirs"] if d[0] != "config")
-            provided = {}
-            for b in exp_paths:
-                for wd in (bases[b]["walk"] if b in bases else []):
-                    for i in range(1, len(wd["rel"]) + 1):
-                        exp_dirs.add(tuple(wd["rel"][:i]))
-                    for fl in wd["files"]:
-                        provided.setdefault(tuple(wd["rel"]) + (fl["name"],), []).append(fl)
-            for p, fls in provided.items():
-                if oracle_is_plain(p[-1]):
-                    exp_files[p] = exp_files.get(p, b"") + b"".join(oracle_render(fl["tmpl"], full_layers) for fl in fls)
-                else:
-                    exp_files[p] = file_bytes(fls[-1])
+            exp_files, exp_dirs, provided = expected_tree(bases, exp_paths, case["dist"], full_layers)
+            if nc is not None and list(nc.data_paths) != list(data_paths):
+                ctx.fail("data-paths-not-from-car", "the node's data paths are not the car's data_paths (highest-ranked definer) / <install>/data",
+                         data_paths, list(nc.data_paths))
             for p in sorted(set(exp_files) | set(files)):
                 if exp_files.get(p) != files.get(p):
                     if p not in provided:
@@ -747,7 +765,9 @@ def run_cleanup_phase(ctx, case, sb, nc):
 
     for dp in nc.data_paths:
         if not (os.path.isabs(dp) and os.path.normpath(dp).startswith(sb + os.sep)):
-            raise HarnessError(f"refusing to clean up outside the sandbox: {dp}")
+            # what the implementation handed out is judged (the data-paths oracle of the caller has the expectation), never cleaned up
+            ctx.diff("data path outside the sandbox of this case: cleanup not run", "below " + sb, dp)
+            return
     os.makedirs(os.path.join(sb, "other", "keep"), exist_ok=True)
     os.makedirs(os.path.join(sb, "ext"), exist_ok=True)
     os.makedirs(os.path.join(sb, "linktarget", "nodes"), exist_ok=True)
@@ -1089,9 +1109,246 @@ def run_plugins(ctx, case):
         shutil.rmtree(sb, ignore_errors=True)
 
 
+# ------------------------------------------------------------------------------------------------
+# stream: sessions — several team.load_car / BareProvisioner.prepare calls in ONE process, on several team directories with config
+# bases and cars of the same names, and on one directory that is rewritten in place between two loads (what `git checkout` in the team
+# repository does between two races).  Theorem side: session_is_map_of_independent_calls, loads_leave_no_trace, load_sees_last_write.
+# ------------------------------------------------------------------------------------------------
+ROOTS = ["r0", "r1"]
+
+
+def mutate_team(rng, team):
+    """another revision of the same team: same names, other variable sets / values / base lines / templates"""
+    t = json.loads(json.dumps(team))
+    for _, b in t["bases"]:
+        if b["ini"] and b["section"]:
+            out, seen = [], set()
+            for k, v in b["vars"]:
+                x = rng.random()
+                if x < 0.25 and not k.startswith("runtime."):
+                    continue  # this revision does not define it any more
+                if x < 0.75:
+                    v = gen_ini_value(rng, k)
+                out.append([k, v])
+                seen.add(k)
+            for k, v in gen_ini_vars(rng, rng.randrange(0, 3)):
+                if k not in seen:
+                    seen.add(k)
+                    out.append([k, v])
+            b["vars"] = out
+        if rng.random() < 0.1:
+            b["ini"] = b["section"] = False
+            b["vars"] = []
+        if b["templates"] and rng.random() < 0.3:
+            b["walk"] = gen_tree(rng)
+        if rng.random() < 0.1:
+            b["hook"] = not b["hook"]
+    bnames = [n for n, _ in t["bases"]]
+    for _, c in t["cars"]:
+        if rng.random() < 0.3:
+            c["vars"] = gen_ini_vars(rng, rng.randrange(0, 4))
+        if c["base"] and rng.random() < 0.2:
+            c["base"] = ",".join(rng.choice(bnames) for _ in range(rng.choice([1, 2])))
+    if len(t["bases"]) > 1 and rng.random() < 0.1:
+        t["bases"].pop(rng.randrange(1, len(t["bases"])))
+    if len(t["cars"]) > 1 and rng.random() < 0.1:
+        t["cars"].pop(rng.randrange(1, len(t["cars"])))
+    return t
+
+
+def gen_sessions(ctx):
+    rng = ctx.rng
+    for _ in range(ctx.budget):
+        base = gen_team(rng)
+        variants = [base, mutate_team(rng, base), mutate_team(rng, base) if rng.random() < 0.7 else gen_team(rng)]
+        cnames = [c[0] for c in base["cars"]]
+
+        def load(root):
+            names = [rng.choice(cnames) for _ in range(rng.choice([1, 1, 2, 2, 3]))]
+            if rng.random() < 0.8:
+                names[0] = cnames[0]
+            r = rng.random()
+            if r < 0.03:
+                names.insert(rng.randrange(len(names) + 1), "no-such-car")
+            elif r < 0.05:
+                names = []
+            params = []
+            if rng.random() < 0.4:
+                seen = set()
+                for _ in range(rng.randrange(1, 3)):
+                    k = gen_key(rng)
+                    if k not in seen:
+                        seen.add(k)
+                        params.append([k, gen_param_value(rng, k)])
+            return {"op": "load", "root": root, "names": names, "params": params, "prov": rng.random() < 0.4}
+
+        steps = [{"op": "write", "root": "r0", "team": 0}, load("r0")]
+        shape = rng.choice(["other-root", "in-place", "in-place", "both", "random"])
+        if shape in ("other-root", "both"):
+            steps += [{"op": "write", "root": "r1", "team": 1}, load("r1"), load("r0")]
+        if shape in ("in-place", "both"):
+            steps += [{"op": "write", "root": "r0", "team": rng.choice([1, 2])}, load("r0")]
+        if shape == "both":
+            steps.append(load("r1"))
+        for _ in range(rng.randrange(0, 3) if shape != "random" else rng.randrange(2, 6)):
+            root = rng.choice(ROOTS + (["r2"] if rng.random() < 0.1 else []))
+            steps.append({"op": "write", "root": rng.choice(ROOTS), "team": rng.randrange(3)} if rng.random() < 0.3 else load(root))
+        if rng.random() < 0.3:
+            # the same request twice in a row must give the same answer
+            last = [st for st in steps if st["op"] == "load"][-1]
+            steps.append(dict(last))
+        dist_name, dist = gen_dist(rng)
+        yield {"variants": variants, "steps": steps, "node": gen_node(rng, dist_name), "dist": dist}
+
+
+FRESH = ("esrally.mechanic.team", "esrally.mechanic.provisioner", "esrally.mechanic.java_resolver")
+
+
+def fresh_process_state():
+    """a session stands for ONE process from its start: the modules the property is anchored in (and Rally's utility modules below them)
+    are imported anew, so that nothing an earlier case of this worker left in a class or module attribute is visible and a failing
+    session is reproducible on its own.  (Re-importing all of esrally costs 0.1-0.6 s per case.)"""
+    import importlib
+
+    for k in list(sys.modules):
+        if k in FRESH or k.startswith("esrally.utils"):
+            del sys.modules[k]
+    return importlib.import_module("esrally.mechanic.provisioner"), importlib.import_module("esrally.mechanic.team")
+
+
+def run_sessions(ctx, case):
+    provisioner, rteam = fresh_process_state()
+
+    sb = tempfile.mkdtemp(prefix="c13s-")
+    saved_path = list(sys.path)
+    try:
+        dist_name = case["node"]["dist_name"]
+        sbx = (sb, dist_name)
+        dist_path = materialise_dist(dist_name, case["dist"], sb)
+        msteps, nodes = [], {}
+        for i, st in enumerate(case["steps"]):
+            if st["op"] == "write":
+                msteps.append({"op": "write", "root": st["root"], "team": model_team(case["variants"][st["team"]], sbx)})
+            else:
+                node = None
+                if st["prov"]:
+                    node = dict(case["node"])
+                    node["node_root"] = os.path.join(sb, f"node{i}")
+                    nodes[i] = node
+                msteps.append({"op": "load", "root": st["root"], "names": st["names"], "params": subst(st["params"], sbx),
+                               "node": node, "dist": case["dist"] if node else None})
+        m = ctx.model("teamsession", "session", {"steps": msteps})
+        answers = list(m["r"])
+        tags = m.get("tags", [])
+        current, outcomes, j = {}, [], 0
+        for i, st in enumerate(case["steps"]):
+            root_dir = os.path.join(sb, st["root"])
+            if st["op"] == "write":
+                # the directory is switched in place: same path, new content
+                shutil.rmtree(root_dir, ignore_errors=True)
+                os.makedirs(root_dir)
+                materialise_team(case["variants"][st["team"]], root_dir, key=sbx)
+                ctx.count("session:rewrite" if st["root"] in current else "session:first-write")
+                current[st["root"]] = case["variants"][st["team"]]
+                continue
+            ma, j = answers[j], j + 1
+            where = f"step {i} (load {st['names']} from {st['root']})"
+            team_root, cars_dir = os.path.join(root_dir, "team"), os.path.join(root_dir, "team", "cars", "v1")
+            params = subst(st["params"], sbx)
+            try:
+                car = rteam.load_car(team_root, st["names"], dict((k, v) for k, v in params))
+            except Exception as e:  # pylint: disable=broad-except
+                ierr = impl_error(e)
+                if not same_err(ma.get("err"), ierr):
+                    ctx.diff(f"{where}: load_car outcome", ma, {"err": ierr})
+                tv = current.get(st["root"])
+                if tv is not None and st["names"] and all(n in dict(tv["cars"]) for n in st["names"]) \
+                        and any(b for n in st["names"] for b in (dict(tv["cars"])[n]["base"] or "").split(",")):
+                    ctx.fail("session-load-refused", f"{where}: every named car exists on disk and a config base is named, but load_car raised", "a car", ierr)
+                outcomes.append(ierr)
+                continue
+            if "err" in ma:
+                ctx.diff(f"{where}: load_car outcome", ma, {"ok": list(car.names)})
+                outcomes.append("ok!")
+                continue
+            pre = cars_dir + os.sep
+
+            def base_of(p, suffix):
+                return p[len(pre): len(p) - len(suffix)] if p.startswith(pre) and p.endswith(suffix) else "?" + p
+
+            impl_car = {
+                "names": list(car.names),
+                "root_paths": [base_of(p, "") for p in car.root_path],
+                "config_paths": [base_of(p, os.sep + "templates") for p in car.config_paths],
+                "vars": [[k, v] for k, v in car.variables.items()],
+            }
+            if impl_car != ma["car"]:
+                ctx.diff(f"{where}: load_car result", ma["car"], impl_car)
+            tv = current.get(st["root"])
+            if tv is None or not all(n in dict(tv["cars"]) for n in st["names"]):
+                ctx.fail("session-load-of-missing-car", f"{where}: a car that is not on disk was loaded", "an error", impl_car)
+                outcomes.append("ok?")
+                continue
+            # the expectation is read from the revision that is on disk NOW at this root
+            layers, exp_paths, exp_roots, bases = check_car_oracle(ctx, tv, st["names"], params, sbx, car, impl_car, prefix=f"session-")
+            outcomes.append("ok")
+            if not st["prov"]:
+                continue
+            # ---- BareProvisioner.prepare with this car ---------------------------------------
+            node = nodes[i]
+            node_root = node["node_root"]
+            es_home = os.path.join(node_root, "install", dist_name)
+            mp = ma["prepared"]
+            try:
+                inst = provisioner.ElasticsearchInstaller(
+                    car=car, java_home=None, node_name=node["node_name"], cluster_name=node["cluster_name"], node_root_dir=node_root,
+                    all_node_ips=node["all_ips"], all_node_names=node["all_names"], ip=node["ip"], http_port=node["http_port"])
+                nc = provisioner.BareProvisioner(es_installer=inst, plugin_installers=[]).prepare({"elasticsearch": dist_path})
+                ires = {"ok": {"runtime_jdk": nc.car_runtime_jdks, "bundled": nc.car_provides_bundled_jdk, "ip": nc.ip, "node_name": nc.node_name,
+                               "node_root": nc.node_root_path, "binary_path": nc.binary_path, "data_paths": nc.data_paths}}
+            except Exception as e:  # pylint: disable=broad-except
+                nc, ires = None, {"err": impl_error(e)}
+            if ires != mp["result"] and not ("err" in ires and same_err(mp["result"].get("err"), ires["err"])):
+                ctx.diff(f"{where}: prepare result", mp["result"], ires)
+            files, dirs = tree_of(es_home) if os.path.isdir(es_home) else ({}, set())
+            mfs = {"files": sorted(mp["fs"]["files"]), "dirs": sorted(mp["fs"]["dirs"])}
+            ifs = canon_fs(files, dirs)
+            if ifs != mfs:
+                ctx.diff(f"{where}: installed tree", summarise_fs(mfs), summarise_fs(ifs))
+            stage = ires.get("err", "ok")
+            ok_dp, dpv = ranked(layers, "data_paths")
+            if stage == "SystemSetupError:*" and ok_dp and not isinstance(dpv, (str, list)):
+                stage = "SystemSetupError:data-paths-type"
+            outcomes[-1] = "prov:" + stage
+            if stage in ("SystemSetupError:data-paths-type", "OSError:no-bundled-config"):
+                continue
+            data_paths = [dpv] if isinstance(dpv, str) else dpv if ok_dp else [es_home + "/data"]
+            internal = oracle_internal(node, node_root, es_home, data_paths)
+            full_layers = [{"cluster_settings": {}}, internal] + layers
+            exp_files, exp_dirs, provided = expected_tree(bases, exp_paths, case["dist"], full_layers)
+            for p in sorted(set(exp_files) | set(files)):
+                if exp_files.get(p) != files.get(p):
+                    cls = "tree-extra-or-lost-file" if p not in provided else "tree-binary-not-verbatim" if not oracle_is_plain(p[-1]) else \
+                        classify_plain(provided[p], full_layers, layers, internal, exp_files.get(p), files.get(p))
+                    ctx.fail("session-" + cls, f"{where}: installed file {'/'.join(p)} differs from the templates that are on disk now, rendered with the "
+                             "variables that are on disk now", repr(exp_files.get(p)), repr(files.get(p)))
+                    break
+            if dirs != exp_dirs:
+                ctx.fail("session-tree-directories", f"{where}: directories of the installation differ from archive + template directories", sorted(exp_dirs), sorted(dirs))
+            if nc is not None and list(nc.data_paths) != list(data_paths):
+                ctx.fail("session-data-paths-not-from-car", f"{where}: the node's data paths are not the car's", data_paths, list(nc.data_paths))
+        # the same request twice in a row (nothing written in between): same answer
+        ctx.count("session:loads", len(outcomes))
+        ctx.sig([tags, sorted(set(outcomes))], nontrivial=any(o.startswith(("ok", "prov:ok")) for o in outcomes) and len(outcomes) > 1)
+    finally:
+        sys.path[:] = saved_path
+        shutil.rmtree(sb, ignore_errors=True)
+
+
 STREAMS = [
     Stream("compose_prepare_cleanup", gen_main, run_main, quick=1600, thorough=30000, shards=16),
     Stream("cleanup_fs", gen_cleanup, run_cleanup, quick=1600, thorough=20000, shards=8),
     Stream("plain_text", gen_plain, run_plain, quick=3000, thorough=100000, shards=2),
     Stream("plugin_variables", gen_plugins, run_plugins, quick=400, thorough=8000, shards=8),
+    Stream("load_sessions", gen_sessions, run_sessions, quick=320, thorough=6000, shards=8),
 ]
